@@ -394,4 +394,6 @@ def run(model, R):
     flag_clobber(R, model.func('lattices.Data._fromlist'), ['unordered'])
     flag_clobber(R, model.func('contexts.Data.fromdict'), ['ignore_lattice', 'require_lattice', 'raw'])
     flag_clobber(R, model.func('contexts.Data.fromjson'), ['ignore_lattice', 'require_lattice', 'raw'])
+    from .common import no_unpickle_shortcut
+    R.guard('AGREEMENT', None, '_init call sites', no_unpickle_shortcut, model, R, 'AGREEMENT')
     return __doc__.strip()
